@@ -55,6 +55,11 @@ class Violation(Exception):
     pass
 
 
+# axioms DECLARED BY THE STANDARD LIBRARY that a development may rely on (named in the trusted base of the check that uses
+# them: only C19's floating-point theorems do, through Flocq's real numbers); anything else fails the check
+STDLIB_AXIOMS = {"sig_not_dec", "sig_forall_dec", "functional_extensionality_dep", "classic"}
+
+
 class Ctx:
     def __init__(self, prop, tier, seed):
         self.prop = prop
@@ -127,6 +132,11 @@ class Ctx:
             if not os.path.exists(os.path.join(COQ, "Makefile")):
                 sh(["coq_makefile", "-f", "_CoqProject", "-o", "Makefile"], cwd=COQ, check=True)
             rc, o, e = sh(["timeout", "1500", "make", "-j%d" % NCPU] + targets, cwd=COQ, timeout=1600)
+            if rc != 0:
+                # a proof no longer checks: still bring every executable model up to date with the regenerated tables, so that
+                # the search for a failing input (cases evaluated against Model/*.vo) runs on a consistent build
+                models = ["Model/" + f[:-2] + ".vo" for f in sorted(os.listdir(os.path.join(COQ, "Model"))) if f.endswith(".v")]
+                sh(["timeout", "1500", "make", "-k", "-j%d" % NCPU] + models, cwd=COQ, timeout=1600)
             return rc == 0, o + e
 
     def coq_props(self, propfile):
@@ -168,9 +178,18 @@ class Ctx:
         if rc != 0:
             raise RuntimeError("coqc Props/%s.v failed: %s" % (propfile, out[-2000:]))
         closed = out.count("Closed under the global context")
-        axs = re.findall(r"^Axioms:\n((?:.+\n)+?)(?=\S|\Z)", out, re.M)
-        self.axioms = {"closed_under_global_context": closed,
-                       "axiom_blocks": [a.strip() for a in axs]}
+        # axiom names as Print Assumptions lists them (one "Name : type" entry per axiom, types may span lines)
+        ax_names = []
+        for blk in re.findall(r"^Axioms:\n(.*?)(?=^Closed under|^Axioms:|\Z)", out, re.M | re.S):
+            for nm in re.findall(r"^([A-Za-z_][\w.']*)\s*$|^([A-Za-z_][\w.']*) :", blk, re.M):
+                n_ = nm[0] or nm[1]
+                if n_ and n_ not in ax_names:
+                    ax_names.append(n_)
+        self.axioms = {"closed_under_global_context": closed, "axioms_used": ax_names}
+        bad = [a for a in ax_names if a.split(".")[-1] not in STDLIB_AXIOMS]
+        if bad:
+            self.coverage["discharged"] = 0
+            return False, "a property theorem depends on an axiom that is not one of the standard library's: %s" % bad, out[-3000:]
         self.coverage["discharged"] = len(thms)
         if self.tier == "thorough":
             # independent re-check of the compiled theorems and everything they depend on
@@ -180,7 +199,9 @@ class Ctx:
             m = re.search(r"\* Axioms:(.*?)\n\s*\n\* Constants/Inductives relying on type-in-type:(.*?)\n", out2, re.S)
             self.axioms["coqchk"] = {"rc": rc, "axioms": m.group(1).strip() if m else "?", "type_in_type": m.group(2).strip() if m else "?"}
             self.coverage["checker_cmd"] += " + coqchk -silent -o YV.Props.%s" % propfile
-            if rc != 0 or not m or m.group(1).strip() != "<none>":
+            chk_axioms = [] if (m and m.group(1).strip() == "<none>") else ([x.strip() for x in m.group(1).split("\n") if x.strip()] if m else ["?"])
+            self.axioms["coqchk"]["axioms_list"] = chk_axioms
+            if rc != 0 or not m or any(a.split(".")[-1] not in STDLIB_AXIOMS for a in chk_axioms):
                 self.coverage["discharged"] = 0
                 return False, "coqchk (independent checker) rejects the development or reports axioms", out2[-3000:]
         return True, None, log
